@@ -240,6 +240,9 @@ class DataPath:
                 parts.append(part.to_spec())
             else:
                 parts.append(simple)
+        if not self.is_concrete and not any(isinstance(i, dict) for i in parts):
+            # every part simplified to a primitive, which would rebuild to a concrete path:
+            parts[0] = self.parts[0].to_spec()
         return parts
 
     def to_spec(self):
